@@ -82,6 +82,7 @@ type Run struct {
 	known    map[string]*knownHit
 	findings []Finding
 	onlyCase int64
+	classCount map[string]int
 	notes    []string
 }
 
@@ -91,7 +92,7 @@ func Start(prop, level string) *Run {
 	r := &Run{
 		Prop: prop, Level: level, Tier: os.Getenv("VERIF_TIER"), start: time.Now(),
 		distinct: map[uint64]struct{}{}, counters: map[string]int64{}, incon: map[string]int64{},
-		known: map[string]*knownHit{}, onlyCase: -1,
+		known: map[string]*knownHit{}, onlyCase: -1, classCount: map[string]int{},
 	}
 	if r.Tier != "thorough" {
 		r.Tier = "quick"
@@ -218,8 +219,12 @@ func (r *Run) Violation(class string, caseIdx int, brief string, witness any) {
 			return
 		}
 	}
+	r.classCount[class]++
+	if r.classCount[class] > 3 {
+		return // counted; the first three witnesses of a class are enough
+	}
 	v := violation{Class: class, Brief: brief}
-	if len(r.viols) < 20 {
+	if len(r.viols) < 60 {
 		dir := filepath.Join(replayDir(), r.Prop)
 		os.MkdirAll(dir, 0o755)
 		suffix := ""
@@ -240,7 +245,11 @@ func (r *Run) Violation(class string, caseIdx int, brief string, witness any) {
 func (r *Run) Violations() int {
 	r.mu.Lock()
 	defer r.mu.Unlock()
-	return len(r.viols)
+	n := 0
+	for _, c := range r.classCount {
+		n += c
+	}
+	return n
 }
 
 // Finish writes the part file ($VERIF_PART) that run.py merges into
@@ -261,7 +270,7 @@ func (r *Run) Finish(rule string, floor int) {
 		"property_id": r.Prop, "tier": r.Tier, "seed": int64(Seed()), "level": r.Level, "race": r.Race,
 		"evaluations": r.evals, "distinct_nontrivial": len(r.distinct), "rule": rule,
 		"samples": r.samples, "counters": r.counters, "assumptions": r.assume,
-		"inconclusive": r.incon, "violations": r.viols, "known": kn, "notes": r.notes,
+		"inconclusive": r.incon, "violations": r.viols, "violation_classes": r.classCount, "known": kn, "notes": r.notes,
 		"floor": floor, "floor_ok": len(r.distinct) >= floor || r.onlyCase >= 0,
 		"wall_s": time.Since(r.start).Seconds(), "gomaxprocs": runtime.GOMAXPROCS(0),
 	}
@@ -277,7 +286,7 @@ func (r *Run) Finish(rule string, floor int) {
 		panic(err)
 	}
 	fmt.Printf("[%s] evals=%d distinct=%d violations=%d known=%d inconclusive=%d wall=%.1fs\n",
-		r.Prop, r.evals, len(r.distinct), len(r.viols), len(kn), len(r.incon), time.Since(r.start).Seconds())
+		r.Prop, r.evals, len(r.distinct), len(r.classCount), len(kn), len(r.incon), time.Since(r.start).Seconds())
 }
 
 // ---------------------------------------------------------------- parallel case driver
